@@ -5,7 +5,14 @@ invoke, function value, method value, method expression, inside a closure, defer
 non-matching, alternation} x receiver in {absent, bare type name, non-matching} x context in {absent, enclosing
 function, non-matching}) - the full product - with two decoy call sites per program (a similarly named function, the
 same method on another receiver type). Reference matcher: plain regexp.MatchString on generator facts. Observation:
-the reported flows of a skeleton whose only unknown is whether the site is treated in the role."""
+the reported flows of a skeleton whose only unknown is whether the site is treated in the role.
+Second family (identifier kinds): {type = allocation source (new / &T{} / &local), field-read source (value variable,
+pointer, helper parameter, nested struct, inside a closure), field-store sink (same + struct literal), channel-receive
+source (value / pointer element, comma-ok, range, select, channel held in a struct field), value-match on source and
+sink calls} x pattern vector (package x type x field [x context]) - full product - with decoy sites (other field of
+the type, same field of another type, same field of a similarly named type, other constant argument). A pattern whose
+verdict depends on a rendering the documentation leaves open (pointer prefix, package name vs path) leaves the site
+unjudged."""
 import sys
 sys.path.insert(0, '/verif/lib')
 import vlib
@@ -15,7 +22,12 @@ def main(tier):
     rep = vlib.Report('C04', tier)
     vlib.build()
     recs, deaths = vlib.run_shards('cid', [])
-    for begin, tail in deaths:
+    recs2, deaths2 = vlib.run_shards('cid', ['-family', 'kinds'])
+    for r in recs2:
+        r['idx'] += 100000
+        r['kinds'] = True
+    recs = list(recs) + list(recs2)
+    for begin, tail in list(deaths) + list(deaths2):
         rep.fail('worker-death ' + begin, ['death'], dict(begin=begin, tail=tail[-800:]))
     cells = sites = matched_cells = 0
     mixed = 0
@@ -37,6 +49,9 @@ def main(tier):
             for site in r.get(kind) or []:
                 failed = True
                 which = {'1': 'target', '3': 'decoy:other-name', '4': 'decoy:other-receiver'}.get(site, site)
+                if r.get('kinds'):
+                    which = {'1': 'target', '3': 'decoy:other-field-or-similar-type-or-other-constant', '4': 'decoy:other-type', '5': 'decoy:similar-type',
+                             '2': 'decoy:similar-type'}.get(site, site)
                 rep.fail(f"{r['sig']} / site {which} {kind}", r['atoms'] + [kind, 'site:' + which],
                          dict(case=r['sig'], site=which, kind=kind, reference=r['expected'], tool=r['got']))
         dump.write(json.dumps(dict(atoms=r['atoms'] + (['missed'] if r.get('missed') else []) + (['spurious'] if r.get('spurious') else []),
@@ -48,5 +63,5 @@ def main(tier):
                    rule='cell = (role, call form, pattern vector); evaluation = (cell, call site); non-trivial = cell in which the reference says '
                         '"matched" for some site and "not matched" for another', samples=samples)
     rep.assumptions = ['receiver patterns on interface calls are not judged (interface vs concrete type rendering is ambiguous)',
-                       'identifier kinds type/field/store/channel-receive and value-match are not covered yet; layouts: library package only']
+                       'interface identifiers ({package, interface}) and the backtrace-point role are not covered; layouts: one library package']
     return rep.finish(exhaustive=True)
